@@ -85,9 +85,10 @@ pub fn probe(r: &mut Runner, _step: &Step) {
             let pref = r.model.prices[v].iter().rev().find(|x| x.height < h).map(|x| x.price);
             let inside = match pref {
                 Some(p) => {
-                    let up = mul_div(p, d + vo.fluct, d).unwrap_or(U::MAX);
-                    let lo = mul_div(p, d.saturating_sub(vo.fluct), d).unwrap_or(0);
-                    vo.spot >= lo && vo.spot <= up
+                    match crate::refmodel::band_bounds(p, vo.fluct, d) {
+                        Some((lo, up)) => vo.spot >= lo && vo.spot <= up,
+                        None => false,
+                    }
                 }
                 None => false,
             };
